@@ -258,7 +258,7 @@ Print Assumptions required_binding_never_unbound_jwt_bearer.
 Example required_binding_jwt_bearer_example :
   let cfg := match build POpenID [WithJWTBearerGrant; WithDPoPRequired] with Some c => c | None => base_config POpenID end in
   let w := mkWorld cfg [] in
-  let rq b := mkTReq (mkCred 0 false) b "openid" 0 "" 0 PkEmpty 0 HgOk BaApprove [] (AsOk "alice") in
+  let rq b := mkTReq (mkCred 0 false) b "openid" 0 "" 0 PkEmpty 0 HgOk BaApprove [] (AsOk "alice") None in
   cf_dpop_required cfg = true /\
   (exists t, snd (run_seq (jwt_bearer_grant w 5 0%Z (rq (mkBind (Some (ex_proof ex_key2 0)) 0))) empty_store) = OTokens t
              /\ tr_jkt t = ex_key2 /\ tr_dpop t = true) /\
